@@ -62,6 +62,22 @@ PROPS["C15"] = {
     "assumptions": ["update indices are non-negative", "fully annotated ways = every node version != 0, annotated updates = version != 0 (geometry claim)"],
 }
 
+PROPS["C19"] = {
+    "props": ["OsmVerif.Props.C19"],
+    "gens": ["Replication"],
+    "timeout": 1800,
+    "required_theorems": ["search_returns_first_at_or_after", "search_returns_first_partial", "search_future_returns_current",
+                          "findBound_ok", "findInRangeL_fst", "findInRangeL_requests", "findInRangeL_requests_gapfree",
+                          "formats_eq_planet_layout", "seqPath_layout", "seqPath_injective", "changeset_seq_off_by_one"],
+    "technique": "Lean 4 theorems (induction on fuel with the interval invariant a < t <= b) about a hand-written executable model of searchTimestamp/findBound/findInRange that also returns the request log; tied by comparing result and exact requested URL sequence with the real code behind a fake transport; URL recipes/formats extracted from the source and proved equal to the pinned planet layout",
+    "level_text": "Machine-checked proof, for every availability pattern with increasing timestamps and every query time, that the model of the state search returns the first available state written at or after t when the minimum state is available (any gaps above it), the newest state when t is later than all, and - when the minimum is missing - an available state at or after t which is the first one whenever findBound's ascent ends on a state not after t; termination with an explicit request bound ((hi-lo)^2 in general, 2^k <= 2(w-1) i.e. logarithmic on gap-free ranges); three-level zero-padded paths injective below 10^9; changeset off-by-one; source URL recipes = planet layout. PARTIAL: the sum-form request bound (log range + missing files stepped over) is checked per case by the harness (4*log2+4*missing+8), not proved; the missing-minimum sparse-low-end case is a recorded known finding.",
+    "level_note": "Trusted: Lean kernel; correspondence harness with a fake http.RoundTripper (requested URL sequence and result compared exactly); time.Parse/Format, fmt.Sprintf %03d, net/http modelled not verified.",
+    "design_ref": "DESIGN.md §5 C19",
+    "trusted_base": ["model Model/Search.lean is hand-written (of the repaired code); tie = result and exact request sequence vs the real code",
+                     "state-file text decoding (bytes.Split, strconv, time.Parse) exercised by the harness, not modelled"],
+    "assumptions": ["state files carry strictly increasing timestamps (Mono)", "the current state is available"],
+}
+
 NOT_APPLICABLE = {pid: "check not built yet in this session (planned, see DESIGN.md §9); no claim is made" for pid in
                   ["C%02d" % i for i in range(1, 21)] if pid not in PROPS}
 
